@@ -3,12 +3,28 @@
 // topology member functions used by the decoder are defined here over the symbolic machine description.
 // Mask representation: the 64-bit configuration (PIKA_HAVE_MAX_CPU_COUNT=64).
 #include "env_pre.hpp"
+// every header the code under test includes is included FIRST (real std::vector in their declarations); then std::vector is
+// replaced by the fixed-capacity stand-in for the body of parse_affinity_options.cpp and for this kernel (env_fixed_vector.hpp)
+#include <pika/affinity/parse_affinity_options.hpp>
+#include <pika/assert.hpp>
+#include <pika/modules/errors.hpp>
+#include <pika/topology/topology.hpp>
+#include <hwloc.h>
+#include <algorithm>
+#include <cmath>
+#include <cstddef>
+#include <cstdint>
+#include <string>
+#include <tuple>
+#include <vector>
+#include "env_errors.hpp"
+#include "env_fixed_vector.hpp"
 #include </repo/libs/pika/affinity/src/parse_affinity_options.cpp>
 #include "env_errors.hpp"
 
 // ---- symbolic machine ---------------------------------------------------------------------------------
 static std::size_t m_sockets, m_cores, m_pus;
-static std::size_t m_socket_cores[2], m_core_pus[4], m_core_base[4];
+static std::size_t m_socket_cores[3], m_core_pus[4], m_core_base[4];
 static std::uint64_t m_proc_mask;
 
 namespace pika::threads::detail {
@@ -40,12 +56,16 @@ extern "C" void aff_main()
     m_sockets = (std::size_t) verif_param(1);
     m_cores = 0;
     m_pus = 0;
+    // params 2/3 < 10: the same count everywhere; >= 10: one decimal digit per socket / per core (asymmetric machines)
+    std::size_t p2 = (std::size_t) verif_param(2), p3 = (std::size_t) verif_param(3);
+    std::size_t p3digits[4] = {p3 / 1000 % 10, p3 / 100 % 10, p3 / 10 % 10, p3 % 10};
+    std::size_t nd3 = p3 >= 1000 ? 4 : p3 >= 100 ? 3 : p3 >= 10 ? 2 : 1;
     for (std::size_t s = 0; s < m_sockets; ++s)
     {
-        m_socket_cores[s] = (std::size_t) verif_param(2);
+        m_socket_cores[s] = p2 < 10 ? p2 : (s == 0 ? p2 / 10 : p2 % 10);
         for (std::size_t c = 0; c < m_socket_cores[s]; ++c)
         {
-            m_core_pus[m_cores] = (std::size_t) verif_param(3);
+            m_core_pus[m_cores] = p3 < 10 ? p3 : p3digits[4 - nd3 + m_cores];
             m_core_base[m_cores] = m_pus;
             m_pus += m_core_pus[m_cores];
             ++m_cores;
